@@ -726,10 +726,8 @@ func c15LoadReplayDoc(path string) (*c15ReplayDoc, error) {
 }
 
 func c15KnownEntries() []vt.Finding {
-	path := os.Getenv("VERIF_KNOWN")
-	if path == "" {
-		path = filepath.Join(c15VerifRoot(), "known_findings.json")
-	}
+	// the replay test always reads the committed list (VERIF_KNOWN only steers which signatures the search excludes)
+	path := filepath.Join(c15VerifRoot(), "known_findings.json")
 	b, err := os.ReadFile(path)
 	if err != nil {
 		return nil
